@@ -89,7 +89,7 @@ class ChannelEngine(Engine):
             'present, blank lines, # comments, free title line, trailing comments on header and atom lines, loss of the "N atoms" '
             'line, a bounds line or the Atoms section); reads it back with real atomman from text / path / BytesIO / raw short-read '
             'stream / buffered stream; compares cell, count, types, positions, every carried property with its shape, periodic flags '
-            'and symbols. A removed section MUST raise FileFormatError. Torn files are not injected (the statement promises nothing). '
+            'and symbols. A dump caller may name the file unit of every column itself (None = no conversion, also for LAMMPS-standard properties); integer identifiers use up to 63 bits. A removed section MUST raise FileFormatError. Torn files are not injected (the statement promises nothing). '
             'Non-trivial run: at least one perturbation or non-text source fired. distinct = distinct (style, atom style, unit style, '
             'perturbation set, source kind, destination, has-flags, tilted, non-periodic dims, format class) signatures.')
     tolerances = {'printed number': 'half a unit in the last printed place of its float format, in the file\'s own units',
